@@ -6,6 +6,7 @@ the expression language `Model/Functionals.lean` (C09, round 4):
   `KullbackLeiblerConvexConj.gradient` (`KLCCGradient._call`: `prior / (1 - x)`), with the
   points at which NumPy's division is by zero (`x_i = 0`, resp. `x_i = 1`: non-finite entry)
   and the points at which `_call` returns `inf`;
+* `L2Norm._call` / `L2Norm.gradient` (`x / ‖x‖`, the zero vector at `x = 0`);
 * `IndicatorBox._call` / `IndicatorNonnegativity._call` exactly as coded: project with
   `proximal_box_constraint` (C07's `boxCode`: `minimum(maximum(x, lower), upper)`), then
   `inf if x.dist(proj) > 0 else 0` in the space's own (weighted) distance;
@@ -49,6 +50,17 @@ def klDom (x : List K) : Bool := x.all fun t => decide (0 < t)
 
 /-- `KullbackLeiblerConvexConj._call` is finite (for a positive prior): every entry `< 1`. -/
 def klccDom (x : List K) : Bool := x.all fun t => decide (t < 1)
+
+/-! ### L2Norm (`LpNorm` with exponent 2) -/
+
+/-- `L2Norm._call`: `np.sqrt(x.inner(x))` (`sqrt` is a parameter, as in C07: the driver supplies
+the exact rational root when there is one and a 2^-64 accurate one otherwise; the theorems use
+`Real.sqrt`). -/
+def l2Val (sqrt : K → K) (w x : List K) : K := sqrt (innerW w x x)
+
+/-- `L2Gradient._call`: `x / x.norm()`, and the ZERO vector when `x.norm() == 0`. -/
+def l2Grad (sqrt : K → K) (w x : List K) : List K :=
+  if sqrt (innerW w x x) = 0 then x.map (fun _ => 0) else x.map (· / sqrt (innerW w x x))
 
 /-! ### IndicatorBox -/
 
